@@ -61,7 +61,10 @@ class UnSSADiGraph(object):
         """
         ircfg = self.ssa.graph
 
-        for irblock in list(viewvalues(ircfg.blocks)):
+        for loc_key in list(ircfg.blocks):
+            # Fetch the current version of the block: parallel copies may have
+            # been appended to it as parent of a previously handled Phi block
+            irblock = ircfg.blocks[loc_key]
             if not irblock_has_phi(irblock):
                 continue
 
